@@ -169,4 +169,5 @@ class TwoLevelCheckpointSchedule(CheckpointSchedule):
         bool
             Whether this schedule uses the given storage type.
         """
-        return storage_type == self._binomial_storage
+        # Periodic checkpoints are always stored on disk
+        return storage_type in {StorageType.DISK, self._binomial_storage}
